@@ -14,7 +14,8 @@ use std::sync::{Arc, Mutex};
 
 const PEERS: u64 = 3;
 const KEYS: [&str; 3] = ["k0", "k1", "k2"];
-/// this peer's sink refuses every notification
+/// this peer's sink is flaky: it refuses (Disconnected) every other notification it is handed, starting with the
+/// first one; whatever it answers is what a broadcast must report for it, and a notification it accepts is delivered
 const DEAD_PEER: u64 = 2;
 
 #[derive(Clone, Debug, PartialEq)]
@@ -28,11 +29,14 @@ struct CapSink {
     peer: u64,
     generation: u64,
     got: Mutex<Vec<Sent>>,
+    /// notifications handed to this sink so far (accepted or refused)
+    sends: std::sync::atomic::AtomicU64,
 }
 
 impl PeerSink for CapSink {
     fn send_notify(&self, method: &str, body: NotifyBody) -> Result<(), PeerSendError> {
-        if self.peer == DEAD_PEER {
+        let n = self.sends.fetch_add(1, std::sync::atomic::Ordering::SeqCst);
+        if self.peer == DEAD_PEER && n % 2 == 0 {
             return Err(PeerSendError::Disconnected);
         }
         let format = u16::from(body.body_format());
@@ -120,7 +124,7 @@ impl Run {
                 if self.generation > 1 && self.sinks.contains_key(&p) {
                     self.flags |= F_REINSERT;
                 }
-                let sink = Arc::new(CapSink { peer: p, generation: self.generation, got: Mutex::new(Vec::new()) });
+                let sink = Arc::new(CapSink { peer: p, generation: self.generation, got: Mutex::new(Vec::new()), sends: std::sync::atomic::AtomicU64::new(0) });
                 self.sinks.insert(p, sink.clone());
                 self.reg.insert(PeerHandle::new(PeerId(p), sink));
                 self.m.peers.insert(p, self.generation);
@@ -219,6 +223,13 @@ impl Run {
             for s in self.sinks.values() {
                 s.got.lock().unwrap().clear();
             }
+            // what the flaky sink will answer to the next notification it is handed
+            let refuses: BTreeSet<u64> = self
+                .sinks
+                .iter()
+                .filter(|(p, s)| **p == DEAD_PEER && s.sends.load(std::sync::atomic::Ordering::SeqCst) % 2 == 0)
+                .map(|(p, _)| *p)
+                .collect();
             let path = format!("/evt/{enc}");
             let (res, want_fmt, want_bytes): (_, u16, Vec<u8>) = match enc {
                 0 => (
@@ -255,7 +266,7 @@ impl Run {
                 self.flags |= F_BROADCAST_ERR;
             }
             for (id, r) in &res {
-                let dead = id.0 == DEAD_PEER;
+                let dead = refuses.contains(&id.0);
                 if r.is_ok() == dead {
                     self.fail("C18:broadcast-result-value", format!(
                         "broadcast result for peer {} is {r:?}, its sink {}", id.0,
@@ -266,7 +277,7 @@ impl Run {
             for (p, s) in sinks {
                 let got = s.got.lock().unwrap().clone();
                 let present_with_this_handle = m.peers.get(&p) == Some(&s.generation);
-                let want_n = usize::from(present_with_this_handle && p != DEAD_PEER);
+                let want_n = usize::from(present_with_this_handle && !refuses.contains(&p));
                 if got.len() != want_n {
                     self.fail("C18:broadcast-delivery", format!(
                         "broadcast (encoding {enc}) delivered {} notifications to peer {p} (present: {present_with_this_handle}), expected {want_n}",
@@ -372,7 +383,7 @@ pub fn run(tier: Tier) -> ! {
             "broadcast_with_refusing_sink": b.flag_counts[4] + t.flag_counts[4],
             "peer_reinserted_with_new_handle": b.flag_counts[5] + t.flag_counts[5],
         },
-        "rule": "BFS to a fixpoint over the finite state space of 3 peers x 3 keys (merging on model state + every observer's answer), plus every un-merged history of the tree depth; after every step get/get_by/key_for/aliases_for/len/peers and all four broadcast encodings (with one refusing sink) are compared with the reference model",
+        "rule": "BFS to a fixpoint over the finite state space of 3 peers x 3 keys (merging on model state + every observer's answer), plus every un-merged history of the tree depth; after every step get/get_by/key_for/aliases_for/len/peers and all four broadcast encodings (one sink refusing every other notification it is handed) are compared with the reference model",
     });
     ctx.finish(
         "model_checking",
